@@ -71,6 +71,9 @@ def gen_case(seed: int, prop: str, tier: str, fmt: str | None = None) -> dict:
         # handle). The request may fail; repeated, it must return the right bytes (nothing wrong may have been remembered).
         case["eio"] = {str(rng.randrange(len(cops))): rng.choice([1, 1, 2, 3, 5]) for _ in range(rng.choice([1, 2, 3]))}
         case["eio_kind"] = rng.choice(["eio", "eio", "eio_partial", "short_meta", "short_meta"])
+        # cold: the fault meets the first load of whatever the request needs (tables not cached yet) - the k-th read call from
+        # now on, any handle; warm: the same request has just been served, the fault is placed by its trace
+        case["eio_warm"] = case["eio_kind"] != "short_meta" and rng.random() < 0.5
         if rng.random() < 0.4:
             case["eio_open"] = rng.choice([1, 2, 3, 4, 6, 9])  # the fault meets the constructor: the k-th read call of the open
     if rng.random() < 0.12 and nsectors * 512 <= (64 << 20):
@@ -194,7 +197,7 @@ def run_case(case: dict) -> RunResult:
             todo = []
             for i, op in enumerate(case["cops"]):
                 k = (case.get("eio") or {}).get(str(i))
-                if k:
+                if k and case.get("eio_warm"):
                     todo.append((op, None))  # warm: buffers and caches hold what the request needs
                 todo.append((op, k))
                 if k:
@@ -208,7 +211,7 @@ def run_case(case: dict) -> RunResult:
                     # goes to one of those (handle, n-th read) pairs, later reads of a multi-read request preferred
                     pairs = [(hi, j) for hi, n_reads in enumerate(warm_reads) for j in range(1, min(n_reads, 6) + 1)]
                     pairs += [pr for pr in pairs if pr[1] >= 2] * 2
-                    if pairs:
+                    if pairs and case.get("eio_warm"):
                         hi, j = pairs[(arm * 7919 + case["seed"]) % len(pairs)]
                         h = world.handles[hi][1]
                         h.eio_at, h.fault_kind = h.reads + j, case.get("eio_kind", "eio")
